@@ -254,6 +254,20 @@ def impl(case):
         objs.append(r)
         calls.append(_snapshot(case, r))
     again = [_snapshot(case, r) for r in objs]
+    # a result handed out earlier is the caller's: the caller now edits the network in place (last edge removed) and
+    # extracts again with the same extractor, then puts the edge back -- the EARLIER result must still say what it said
+    kept = []
+    if G.number_of_edges() > 0:
+        u, v, data = list(G.edges(data=True))[-1]
+        data = dict(data)
+        G.remove_edge(u, v)
+        try:
+            X.get_ejks()
+        except Exception:  # noqa: BLE001 - only the earlier result is judged here
+            pass
+        G.add_edge(u, v)
+        G.edges[u, v].update(data)
+        kept = [_snapshot(case, objs[-1])]
     # the PUBLIC per-topology path on a second extractor: count_edge_types() + get_ejk(i, name), asked three times
     # (counted, asked again without recounting, recounted) -- every answer must be the same matrices
     X2 = JointExcessJointDegree({ToolsNames.NETWORK: G, ToolsNames.EDGE_NAMES: list(case["names"])})
@@ -282,7 +296,7 @@ def impl(case):
         G.add_edge(u, v)
         G.edges[u, v].update(data)
     plain = _dict_obs(JointExcessDegree.get_ejk(G))
-    return {"calls": calls, "again": again, "direct": direct, "xkeys": xk, "xkeys_dups": xk_dups, "plain": plain,
+    return {"calls": calls, "again": again, "direct": direct + kept, "xkeys": xk, "xkeys_dups": xk_dups, "plain": plain,
             "tnames": list(last.topology_names)}
 
 
